@@ -284,8 +284,11 @@ func (w *Walker) nodeRoutine(
 		// call the callback
 		cacheResult, err := w.walkCallback(ctx, node)
 		if err != nil {
-			if errors.Is(err, context.Canceled) {
-				// Cancelling externally or via failFast leaves target uncompleted
+			if errors.Is(err, context.Canceled) && ctx.Err() != nil {
+				// Cancelling externally or via failFast leaves target uncompleted.
+				// An error that wraps context.Canceled while the walk context is alive
+				// (a context of the callback's own) is an ordinary failure: leaving the
+				// node uncompleted would park its dependants forever
 				return
 			}
 			// don't account for cache hits in errors
